@@ -115,7 +115,7 @@ where
                 continue;
             }
             if *key_bytes >= *end_key_bytes {
-                break;
+                continue;
             }
             if let Some(cache) = self.cache.get(key) {
                 if let Some(value) = cache.latest() {
